@@ -70,22 +70,25 @@ PROPS = {
     },
     "C15": {
         "module": "ShapeVerif.Props.C15",
-        "extra_modules": ["ShapeVerif.Props.C01"],
+        "extra_modules": ["ShapeVerif.Props.C01", "ShapeVerif.Props.C15Back"],
         "theorems": ["ShapeVerif.admits_deserializes", "ShapeVerif.admits_deserializes_root", "ShapeVerif.sources_deserialize",
                      "ShapeVerif.oneOf_rejects_sources", "ShapeVerif.null_member_missing", "ShapeVerif.empty_object_rejects",
-                     "ShapeVerif.root_optional_rejects_null"],
+                     "ShapeVerif.root_optional_rejects_null", "ShapeVerif.admits_roundtrips", "ShapeVerif.serdeBack_accepts",
+                     "ShapeVerif.serdeBackFields_spec"],
         "statements": {
             "sources_deserialize": "∀ non-empty conflict-free history h of documents without repeated member names: fromSourcesDoc h = ok s, and if s has no OneOf, no empty object, no Null-typed member and is not a root optional object, every d ∈ h is accepted by serde for the generated root type (C01 composed with admits_deserializes_root)",
             "admits_deserializes": "s.wf → hasOneOf s = false → hasEmptyObject s = false → noNullMembers s = true → docNoDup d → admits s d → serdeAccepts s d: every document admitted by the shape is accepted by serde's derive for the generated type (struct = map with unknown fields ignored and only Option fields omissible, Vec, fixed-length tuple, () and Option read null)",
+            "admits_roundtrips": "(same hypotheses) → ∃ d', serdeBack s d = some d' ∧ backEq d d': the value read from an admitted document is written back as a document equal to the source up to number formatting, member order and explicit nulls for absent optional members (serdeBack = to_value ∘ from_str for the generated type: structs write every field in declaration order, an absent Option field as null, unknown members are gone)",
+            "serdeBack_accepts": "(serdeBack s d).isSome = serdeAccepts s d for every shape and document: the two models of the derive agree on when a document is read",
             "oneOf_rejects_sources": "no non-null bare document is accepted by the externally tagged enum generated for OneOf (known finding D18)",
             "null_member_missing": "a member of shape Null absent from a source is a missing `()` field (known finding D23)",
         },
-        "partial": ["deserialisation clause proved in the model for OneOf-free shapes without Null-typed members and legal field names; with C01 (sources admitted by the inferred shape) it gives: every source deserialises. The serialise-back clause is validated by running the generated program, not a theorem",
+        "partial": ["deserialisation clause proved in the model for OneOf-free shapes without Null-typed members and legal field names; with C01 (sources admitted by the inferred shape) it gives: every source deserialises. The serialise-back clause is a theorem in the same fragment (admits_roundtrips) about serdeBack, the model of to_value ∘ from_str, whose verdict is compared with the generated program's on every accepted (shape, source)",
                     "serde's derive is a model (serdeAccepts), validated against the real serde on every compiled case",
                     "known findings: D18 (OneOf → externally tagged enum), D17 (renamed fields without serde(rename)), D19 (empty object → unit struct), D22 (root optional), D23 (Null member absent), D16 (name clash), D3 (unsound inference on conflicting arrays of objects)"],
         "rule": "source sets (half from a generator of clean histories: non-empty snake_case objects, homogeneous arrays, tuples, dropped/null members; half arbitrary histories) are compiled by compile_json; modules that pass C13's resolution check are compiled by rustc in a batch (quick: 60 sets, thorough: 600) and every source is deserialised into the root type, serialised back and compared up to number formatting and explicit nulls. The real verdict is compared with serdeAccepts on the same (shape, document). Non-trivial = document accepted into a type with a struct.",
         "assumptions": ["rustc, serde_derive, serde_json as installed"],
-        "level_text": "admits_deserializes is a Lean theorem over all shapes in the stated fragment and all documents; the excluded classes are exactly the recorded known findings, each with a proved witness. The derive model is compared with the real serde on every (shape, source) of the compiled batches, and the generator model byte for byte with the real generator.",
+        "level_text": "admits_deserializes (every admitted document is read) and admits_roundtrips (and written back equal to the source up to number formatting and explicit nulls) are Lean theorems over all shapes in the stated fragment and all documents; the excluded classes are exactly the recorded known findings, each with a proved witness. The derive model is compared with the real serde on every (shape, source) of the compiled batches, and the generator model byte for byte with the real generator.",
         "level_note": "Trusted: Lean kernel; serdeAccepts as model of serde's derive (differential against real serde); generator model (differential); reference semantics admits.",
         "trusted_extra": ["rustc + serde_derive + serde_json for the compiled batches", "lib/rustitems.py for the root type name"],
     },
